@@ -37,19 +37,33 @@ def main():
             subprocess.run("git -C /repo checkout -- . ; git -C /repo reset -q", shell=True)
             return 2
     fired = []
+    import glob
+
+    def keys_of(p):
+        out = {}
+        for f in glob.glob(os.path.join(VERIF, "evidence", "replay", p + "-*.json")):
+            d = json.load(open(f))
+            out[d["full_key"]] = d
+        return out
+
     try:
         for p in props:
+            # baseline violations of this check on the tree without the patch (cached facts; stash the patch briefly)
+            subprocess.run("git -C /repo stash -q", shell=True)
+            subprocess.run([os.path.join(VERIF, "check"), p, "--tier", tier], cwd=VERIF, stdout=subprocess.PIPE, stderr=subprocess.STDOUT, text=True)
+            base = keys_of(p)
+            subprocess.run("git -C /repo stash pop -q", shell=True)
             r = subprocess.run([os.path.join(VERIF, "check"), p, "--tier", tier], cwd=VERIF, stdout=subprocess.PIPE, stderr=subprocess.STDOUT, text=True)
             lines = [l for l in r.stdout.splitlines() if l.strip()]
-            viol = [l for l in lines if l.startswith("VIOLATION")]
-            detail = [l for l in lines if l.startswith("  ")]
-            status = "FIRED" if r.returncode == 1 and viol else ("silent" if r.returncode == 0 else "ERROR rc=%d" % r.returncode)
+            now = keys_of(p)
+            new = {k: v for k, v in now.items() if k not in base}
+            status = "FIRED (new)" if new else ("silent" if r.returncode in (0, 1) else "ERROR rc=%d" % r.returncode)
             print("%s: %s" % (p, status))
             if r.returncode not in (0, 1):
                 print("\n".join(lines[-15:]))
-            for l in detail[:4]:
-                print("   " + l.strip()[:400])
-            if viol:
+            for k, v in list(new.items())[:4]:
+                print("   %s @ %s: %s" % (k[:160], v["where"], (v["detail"] or "")[:300]))
+            if new:
                 fired.append(p)
     finally:
         subprocess.run("git -C /repo reset -q; git -C /repo checkout -- .", shell=True)
